@@ -102,6 +102,16 @@ META["C13"] = dict(cat="model_checking", design="6 C13",
                         "the real capacity. " + _TB,
                    tech="TLC exhaustive model checking of Vec.tla + TLC-generated history replay + trace validation (CF_Vec)")
 
+META["C12"] = dict(cat="model_checking", design="6 C12",
+                   text="MC_Bigint checks the limb-level algorithms (carry loops, resize-before-add, partial products, bit/limb "
+                        "shifts, stepped powers) against arithmetic on naturals for every pair of operand vectors in a small scope, "
+                        "including failure exactly on capacity overflow; operations on real 64-bit-limb operands up to and beyond "
+                        "the 62-limb capacity are adjudicated by TLC at the value level and compared with the limb-level model, in "
+                        "stack and heap builds.",
+                   note="Operands restricted to the range the property names (non-zero normalised factors; normalised input for "
+                        "hi64 / compare). " + _TB,
+                   tech="TLC exhaustive small-scope model checking of BigintOps.tla + trace validation of operation records")
+
 PENDING = "check not built yet in this revision of /verif (planned; see DESIGN.md section 6)"
 
 
